@@ -19,6 +19,9 @@ pub const TEXT_SERS: &[&str] = &["toml::to_string", "toml::to_string_pretty", "t
 pub const NAMES: &[&str] = TEXT_SERS;
 
 pub fn generate(rng: &mut Rng, _tier: &str) -> Scenario {
+    if rng.chance(1, 8) {
+        return crate::realfam::generate("C17", rng);
+    }
     let mut cfg = GenCfg::swarm(rng);
     let workload_c = rng.chance(1, 2);
     if workload_c {
@@ -67,6 +70,10 @@ fn decode(text: &str) -> Option<Tree> {
 
 pub fn execute(sc: &Scenario, verbose: bool) -> RunOut {
     let mut out = RunOut::default();
+    if sc.workload == "R" {
+        crate::realfam::execute("C17", sc, verbose, &mut out);
+        return out;
+    }
     let ty = &sc.ty;
     let val = sc.val.as_ref().expect("C17 without value");
     let must = must_succeed(ty, val);
